@@ -301,6 +301,12 @@ def corpus():
         g = random.Random(1400 + k); m = sc.gen_model(g)
         m['sections'].append((('Other', 'Extra'), [{'key': ('opt', 'k0'), 'val': 'v0', 'sp': 0}, {'key': ('opt', 'k1'), 'val': 'v1', 'sp': 0}]))
         out.append({'model': m, 'ovr': [['override', ('Other', 'Extra'), ('opt', 'k0'), 0, '']], 'adds': [], 'route': route})
+    # an entry whose CURRENT value cannot be resolved (a placeholder without a variable): overriding or removing it must not read the old value
+    for k, (route, op) in enumerate([('api', 'override'), ('cli', 'remove'), ('cli', 'override')]):
+        g = random.Random(1410 + k); m = sc.gen_model(g)
+        m['sections'].append((('Other', 'Extra'), [{'key': ('opt', 'k0'), 'val': '${nowhere}', 'sp': 0}, {'key': ('opt', 'k1'), 'val': 'v1', 'sp': 0}]))
+        ovr = [['override', ('Other', 'Extra'), ('opt', 'k0'), 0, 'v0']] if op == 'override' else [['remove', ('Other', 'Extra'), ('opt', 'k0'), 0]]
+        out.append({'model': m, 'ovr': ovr, 'adds': [], 'route': route})
     # values that contain '=' (an inclusive range start, a comparison) and ':' through the command line: KEY=VALUE ends the key at the FIRST '='
     for k in (6, 7):
         g = random.Random(1400 + k); m = sc.gen_model(g)
